@@ -345,8 +345,61 @@ func addShortcutOps(l *OpLib) {
 	})
 }
 
+// the VOUCHER VENUE: a constant-product pool WETH-voucher / uusdc (5 WETH : 10 000 USDC), swaps that push the POOL
+// price far above / below the oracle's 2000, joins and exits
+func (w *World) venue5() uint64 {
+	for _, p := range w.App.AmmKeeper.GetAllPool(w.RCtx()) {
+		for _, a := range p.PoolAssets {
+			if a.Token.Denom == VoucherDenom {
+				return p.PoolId
+			}
+		}
+	}
+	return 99
+}
+
+func addVoucherOps(l *OpLib) {
+	l.Add("v5_create_lp1", "createpool", 0, func(w *World, p *BlockPlan) {
+		a := w.A("lp1")
+		p.Txs = one("lp1", &ammtypes.MsgCreatePool{Sender: a.Addr.String(),
+			PoolParams: ammtypes.PoolParams{UseOracle: false, SwapFee: Dec("0.003"), FeeDenom: "uusdc"},
+			PoolAssets: []ammtypes.PoolAsset{
+				{Token: sdk.NewCoin(VoucherDenom, math.NewIntWithDecimal(5, 18)), Weight: I(10), ExternalLiquidityRatio: math.LegacyNewDec(1)},
+				{Token: C("uusdc", 1e10), Weight: I(10), ExternalLiquidityRatio: math.LegacyNewDec(1)},
+			}})
+	})
+	l.Add("v5_swap_in_usdc_weth_XL", "swap", 0, func(w *World, p *BlockPlan) {
+		p.Txs = one("t1", swapIn(w.A("t1"), "", C("uusdc", 3e9), 1, rin(w.venue5(), VoucherDenom)))
+	})
+	l.Add("v5_swap_in_weth_usdc_XL", "swap", 0, func(w *World, p *BlockPlan) {
+		p.Txs = one("t2", swapIn(w.A("t2"), "", sdk.NewCoin(VoucherDenom, math.NewIntWithDecimal(15, 17)), 1, rin(w.venue5(), "uusdc")))
+	})
+	l.Add("v5_swap_out_usdc_for_weth_D", "swap", 0, func(w *World, p *BlockPlan) {
+		p.Txs = one("t1", swapOut(w.A("t1"), "", sdk.NewCoin(VoucherDenom, math.NewInt(7)), 1e14, rout(w.venue5(), "uusdc")))
+	})
+	l.Add("v5_join_all_t1", "join", 0, func(w *World, p *BlockPlan) {
+		p.Txs = one("t1", &ammtypes.MsgJoinPool{Sender: w.A("t1").Addr.String(), PoolId: w.venue5(), MaxAmountsIn: sdk.NewCoins(C("uusdc", 1e9), sdk.NewCoin(VoucherDenom, math.NewIntWithDecimal(5, 17))), ShareAmountOut: math.NewIntWithDecimal(1, 18)})
+	})
+	l.Add("v5_exit_half_lp1", "exit", 0, func(w *World, p *BlockPlan) {
+		a := w.A("lp1")
+		id := w.venue5()
+		amt := mulFrac(w.CommittedOf(a.Addr, ammtypes.GetPoolShareDenom(id)), 1, 2)
+		if !amt.IsPositive() {
+			amt = I(1)
+		}
+		p.Txs = one("lp1", &ammtypes.MsgExitPool{Sender: a.Addr.String(), PoolId: id, ShareAmountIn: amt, MinAmountsOut: sdk.Coins{}})
+	})
+	l.Add("fee_tx_voucher", "feetx", 1, func(w *World, p *BlockPlan) {
+		a := w.A("t3")
+		p.Txs = []PlannedTx{{Signer: "t3", Fee: sdk.NewCoins(sdk.NewCoin(VoucherDenom, math.NewIntWithDecimal(1, 15))), Msgs: []sdk.Msg{&banktypes.MsgSend{FromAddress: a.Addr.String(), ToAddress: w.A("t1").Addr.String(), Amount: sdk.NewCoins(C("uusdc", 1))}}}}
+	})
+}
+
+var voucherOps = []string{"v5_swap_in_usdc_weth_XL", "v5_swap_in_weth_usdc_XL", "v5_swap_out_usdc_for_weth_D", "v5_join_all_t1", "v5_exit_half_lp1", "fee_tx_voucher"}
+
 func addUpgradeOps(l *OpLib) {
 	addAliasOps(l)
+	addVoucherOps(l)
 	addShortcutOps(l)
 	for _, mod := range []string{"amm", "stablestake"} {
 		mod := mod
